@@ -32,7 +32,7 @@ func c09IterList(bounded bool) []IterCfg {
 		}
 	}
 	if bounded {
-		for _, s := range c09Masks[1:] { // masking with @1 never hides anything: unbounded only
+		for _, s := range c09Masks[2:] { // bounds that clip the masking span: largest masking suffix only
 			for _, f := range []bool{false, true} {
 				out = append(out, IterCfg{Mask: s, Filter: f, Lower: "a@2", Upper: "b@2"})
 			}
@@ -243,6 +243,6 @@ func runC09(c *vlib.Ctx) {
 		space = "point subsets (<=4 points) x each point {flushed, memtable} x block size {1; default too when >=2 points are flushed} x 1-2 range keys each {memtable, flushed} x (for uniform point placements) {one table per flushed group, one table for all}"
 	}
 	c.Note("scope", fmt.Sprintf("layouts over points %v and range keys %v: %s; per layout %d iterators (masking suffix %v x {no filter, testkeys masking filter}%s) x (2 full scans with turn-arounds + %d seek scripts over probes %v)",
-		c09Points, c09RangeKeys, space, len(iters), c09Masks, map[bool]string{true: "; bounds none and, for @2/@3, [a@2,b@2)", false: ""}[c.Thorough()], len(scr), c09Probes))
+		c09Points, c09RangeKeys, space, len(iters), c09Masks, map[bool]string{true: "; bounds none and, for @3, [a@2,b@2)", false: ""}[c.Thorough()], len(scr), c09Probes))
 	tot.note(c)
 }
